@@ -2,7 +2,9 @@
 # Runs every stored seed against the quick tier of its property's check (on a scratch copy of /repo).
 cd /verif
 for d in seeded/*/; do
-  name=$(basename "$d"); prop=$(python3 -c "import json;print(json.load(open('$d/meta.json'))['property'])")
+  name=$(basename "$d")
+  if grep -q '"obsolete_since"' "$d/meta.json"; then echo "$name :: obsolete (see meta.json)"; continue; fi
+  prop=$(python3 -c "import json;print(json.load(open('$d/meta.json'))['property'])")
   r=$(./seedtest2.sh "$d/patch.diff" quick "$prop" 2>&1 | tail -1)
   echo "$name :: $r"
 done
